@@ -96,7 +96,7 @@ pub fn slice_worth_more_than_notional(w: &World, so: &StepObs) -> bool {
             if plr == 0 || p.size.is_zero() {
                 return false;
             }
-            let ps = p.size.value.u128() * plr / D;
+            let ps = p.size.value.u128() * plr / du();
             // quote for the slice at the pre-state (the world is at the post-state: look at the pre-state)
             let post = w.store.0.borrow().clone();
             *w.store.0.borrow_mut() = so.pre_snap.kv.clone();
@@ -359,7 +359,7 @@ pub fn cp_update(cps: &CpRef, so: &StepObs) -> CpRef {
 /// funding owed by the position according to the reference checkpoint (falls back to the stored one)
 pub fn owed_ref(p: &Position, cum: i128, cps: &CpRef, v: usize, t: &str) -> i128 {
     match cps.get(&cp_key(v, t)) {
-        Some(cp) => tdiv((cum - cp) * size_of(p), DI),
+        Some(cp) => tdiv((cum - cp) * size_of(p), di()),
         None => owed_of(p, cum),
     }
 }
@@ -412,7 +412,7 @@ pub fn book_update(book: &RefBook, w: &World, so: &StepObs, out: &mut StepOut, p
     if !so.outcome.ok {
         return b;
     }
-    let d = DI;
+    let d = di();
     let resync = |b: &mut RefBook, k: &str, p: &Option<Position>| match p {
         Some(p) => {
             b.insert(k.to_string(), RefPos { size: size_of(p) as i64, margin: p.margin.u128() as i64, notional: p.notional.u128() as i64, cp: itoi(&p.last_updated_premium_fraction) as i64 });
@@ -429,7 +429,7 @@ pub fn book_update(book: &RefBook, w: &World, so: &StepObs, out: &mut StepOut, p
             let sw: Vec<&SwapEv> = so.swaps.iter().filter(|s| s.vamm == va).collect();
             let cum0 = so.pre.vamms[*v].cum;
             let cum1 = so.post.vamms[*v].cum as i64;
-            let n = (*margin * *lev / D) as i128;
+            let n = (*margin * *lev / du()) as i128;
             let pre = b.get(&k).cloned();
             let p0 = so.pre_t(*v, t);
             let stored_dir_long = p0.pos.as_ref().map(|p| p.direction == Direction::AddToAmm);
@@ -717,9 +717,9 @@ pub fn ref_free_collateral(t: &TraderObs, v: &VammObs, imr: u128) -> Option<i128
     };
     let min_coll = if pnl > 0 { margin_f } else { margin_f + pnl };
     let req = if size_of(p) >= 0 {
-        p.notional.u128() as i128 * imr as i128 / DI
+        p.notional.u128() as i128 * imr as i128 / di()
     } else {
-        notional * imr as i128 / DI
+        notional * imr as i128 / di()
     };
     Some(min_coll - req)
 }
@@ -729,8 +729,8 @@ pub fn oracle_c05(w: &World, so: &StepObs, out: &mut StepOut, pre_book: &RefBook
     let cfg = &w.cfg;
     match &so.act {
         Act::Open { t, v, lev, .. } => {
-            let too_low = *lev < D;
-            let too_high = *lev > 0 && D * D / *lev < cfg.imr;
+            let too_low = *lev < du();
+            let too_high = *lev > 0 && du() * du() / *lev < cfg.imr;
             if so.outcome.ok {
                 if too_low || too_high {
                     out.viol(
@@ -871,7 +871,7 @@ pub fn oracle_c06_c07(w: &World, so: &StepObs, out: &mut StepOut, do6: bool, do7
     let cfg = &w.cfg;
     let eng = w.engine.to_string();
     let ifu = w.ifund.to_string();
-    if let Act::Liq { by, t, v, .. } = &so.act {
+    if let Act::Liq { by, t, v, limit } = &so.act {
         let p0 = so.pre_t(*v, t);
         let vo = &so.pre.vamms[*v];
         let pp = match &p0.pos {
@@ -927,7 +927,7 @@ pub fn oracle_c06_c07(w: &World, so: &StepObs, out: &mut StepOut, do6: bool, do7
                 None => {
                     out.tag("c06:full-liquidation");
                     let o = if exch >= 0 { exch } else { p0.out_spot };
-                    let fee = o * cfg.liq_fee as i128 / DI / 2;
+                    let fee = o * cfg.liq_fee as i128 / di() / 2;
                     if to_liq as i128 != fee {
                         out.viol(
                             "C06:full-liquidation-fee",
@@ -949,7 +949,7 @@ pub fn oracle_c06_c07(w: &World, so: &StepObs, out: &mut StepOut, do6: bool, do7
                 }
                 Some(p1) => {
                     out.tag("c06:partial-liquidation");
-                    let exp = pp.size.value.u128() * cfg.plr / D;
+                    let exp = pp.size.value.u128() * cfg.plr / du();
                     let dec = pp.size.value.u128() as i128 - p1.size.value.u128() as i128;
                     let flipped = (size_of(pp) > 0) != (size_of(p1) > 0) && !p1.size.is_zero();
                     if dec != exp as i128 || flipped || dec <= 0 {
@@ -959,7 +959,7 @@ pub fn oracle_c06_c07(w: &World, so: &StepObs, out: &mut StepOut, do6: bool, do7
                         );
                     }
                     if exch >= 0 {
-                        let half = exch * cfg.liq_fee as i128 / DI / 2;
+                        let half = exch * cfg.liq_fee as i128 / di() / 2;
                         if to_liq as i128 != half || to_if as i128 != half {
                             out.viol(
                                 "C06:partial-liquidation-penalty-split",
@@ -980,19 +980,29 @@ pub fn oracle_c06_c07(w: &World, so: &StepObs, out: &mut StepOut, do6: bool, do7
             let fee_ok = cfg.liq_fee != 0;
             let fund_ok = so.pre.balances[&ifu] as i128
                 >= pp.notional.u128() as i128 + pp.margin.u128() as i128 + p0.out_spot.max(0);
-            if r < cfg.mmr as i128 && registered_open && fill_ok && band_ok && fee_ok && fund_ok {
+            // the caller's quote limit is satisfied by the trade the liquidation makes (whole position or slice)
+            let limit_ok = *limit == 0 || {
+                let partial = cfg.plr != 0 && r.abs() > cfg.liq_fee as i128;
+                let fill = if partial {
+                    w.out_amount(*v, pp.direction.clone(), pp.size.value.u128() * cfg.plr / du()).unwrap_or(0)
+                } else {
+                    p0.out_spot.max(0) as u128
+                };
+                if size_of(pp) > 0 { fill >= *limit } else { fill <= *limit }
+            };
+            if r < cfg.mmr as i128 && registered_open && fill_ok && band_ok && fee_ok && fund_ok && limit_ok {
                 let cls = err_class(&so.outcome.err);
                 let vault = so.pre.balances[&eng] as i128;
                 let rem = pp.margin.u128() as i128 + pnl_of(pp, p0.out_spot) - owed;
                 // the partial path is taken when |ratio| > liquidation fee and the partial ratio is non-zero
                 let partial_path = cfg.plr != 0 && r.abs() > cfg.liq_fee as i128;
                 let partial_out = if partial_path {
-                    let ps = pp.size.value.u128() * cfg.plr / D;
+                    let ps = pp.size.value.u128() * cfg.plr / du();
                     w.out_amount(*v, pp.direction.clone(), ps).unwrap_or(0)
                 } else {
                     0
                 };
-                let partial_penalty = (partial_out * cfg.liq_fee / D) as i128;
+                let partial_penalty = (partial_out * cfg.liq_fee / du()) as i128;
                 // partial_liquidation() switches to a quote-denominated swap when the slice is worth more
                 // than the whole open notional
                 let swap_input_branch = partial_path && partial_out > pp.notional.u128();
@@ -1000,7 +1010,7 @@ pub fn oracle_c06_c07(w: &World, so: &StepObs, out: &mut StepOut, do6: bool, do7
                 let refine = match cls.as_str() {
                     "overflow-sub" if cfg.plr != 0 && r < 0 => "partial-path-negative-ratio",
                     "overflow-sub" if swap_input_branch => "partial-path-slice-worth-more-than-open-notional",
-                    "overflow-sub" if partial_path && spot_pnl.abs() * cfg.plr as i128 / DI + partial_penalty > pp.margin.u128() as i128 => "partial-path-spot-pnl-share-plus-penalty-exceeds-margin",
+                    "overflow-sub" if partial_path && spot_pnl.abs() * cfg.plr as i128 / di() + partial_penalty > pp.margin.u128() as i128 => "partial-path-spot-pnl-share-plus-penalty-exceeds-margin",
                     "response-parse" if cfg.real_feed => "real-price-feed",
                     "transfer-failure" if partial_path && vault < partial_penalty => "partial-path-vault-below-penalty",
                     "transfer-failure" if !partial_path && vault < rem => "vault-below-remaining-margin",
@@ -1090,7 +1100,7 @@ pub fn oracle_c11(w: &World, so: &StepObs, out: &mut StepOut, cps: &CpRef) {
                     }
                 }
                 let tps = itoi(&vs0.total_position_size);
-                let pay = tdiv(tps * frac, DI);
+                let pay = tdiv(tps * frac, di());
                 let d_if = so.bal_delta(&ifu);
                 let d_eng = so.bal_delta(&eng);
                 let vault = so.pre.balances[&eng] as i128;
@@ -1120,7 +1130,7 @@ pub fn oracle_c11(w: &World, so: &StepObs, out: &mut StepOut, cps: &CpRef) {
             if let Some(pp) = &p0o.pos {
                 if !pp.size.is_zero() {
                     let owed = owed_ref(pp, cum, cps, *v, t);
-                    let n = margin * lev / D;
+                    let n = margin * lev / du();
                     let same_side = (pp.direction == Direction::AddToAmm) == *buy;
                     match &post.pos {
                         Some(pn) if !pn.size.is_zero() => {
@@ -1128,7 +1138,7 @@ pub fn oracle_c11(w: &World, so: &StepObs, out: &mut StepOut, cps: &CpRef) {
                             if owed != 0 {
                                 if same_side {
                                     out.tag("c11:increase-with-funding-owed");
-                                    let e = pp.margin.u128() as i128 + (n * D / lev) as i128 - owed;
+                                    let e = pp.margin.u128() as i128 + (n * du() / lev) as i128 - owed;
                                     if (pn.margin.u128() as i128 - e.max(0)).abs() > 2 {
                                         out.viol("C11:funding-charge:increase", format!("margin' {} expected {} (owed {}) in {:?}", pn.margin, e, owed, so.act));
                                     }
@@ -1210,7 +1220,7 @@ pub fn oracle_c11(w: &World, so: &StepObs, out: &mut StepOut, cps: &CpRef) {
                 if owed != 0 {
                     out.tag("c11:full-liquidation-with-funding-owed");
                     let exch = so.swaps.first().map(|s| s.quote as i128).unwrap_or(so.pre_t(*v, t).out_spot);
-                    let fee = exch * cfg.liq_fee as i128 / DI / 2;
+                    let fee = exch * cfg.liq_fee as i128 / di() / 2;
                     let rem = p0.margin.u128() as i128 + pnl_of(p0, exch) - owed - fee;
                     let to_if: i128 = so.xfers.iter().filter(|x| x.from == eng && x.to == ifu).map(|x| x.amt as i128).sum();
                     let _ = by;
@@ -1284,8 +1294,8 @@ pub fn oracle_c12(w: &World, so: &StepObs, out: &mut StepOut) {
     };
     match &so.act {
         Act::Open { t, v, margin, lev, .. } => {
-            let n = margin * lev / D;
-            let (es, et) = (n * cfg.spread / D, n * cfg.toll / D);
+            let n = margin * lev / du();
+            let (es, et) = (n * cfg.spread / du(), n * cfg.toll / du());
             let sp = fee_to(&ifu, t);
             let tl = fee_to(&fp, t);
             out.tag("c12:open-ok");
@@ -1334,7 +1344,7 @@ pub fn oracle_c12(w: &World, so: &StepObs, out: &mut StepOut) {
                         let (s, tl) = w.calc_fee(*v, n);
                         (s, tl)
                     };
-                    let (es, et) = (n * cfg.spread / D, n * cfg.toll / D);
+                    let (es, et) = (n * cfg.spread / du(), n * cfg.toll / du());
                     let sp: u128 = fee_to(&ifu, t).iter().sum();
                     let tl: u128 = fee_to(&fp, t).iter().sum();
                     // native: engine -> insurance fund also never carries anything else on a close
